@@ -121,7 +121,7 @@ theorem lookup_range_zip (n : Nat) (c : List Bool) (i : Nat) (hn : c.length = n)
 
 /-- `_get_host_value` is the value `mkHost` gives a generated host: the sensitive value when the address is a key of
 `sensitive_hosts`, the base value otherwise -/
-theorem Src_get_host_value (p : Params) (sens : List (Addr × Int)) (addr : Addr) (cfg : Cfg) :
+theorem Src_gen_host_value (p : Params) (sens : List (Addr × Int)) (addr : Addr) (cfg : Cfg) :
     SrcGen.ScenarioGenerator._get_host_value sens p.baseHostValue addr = (mkHost p sens addr cfg).value := rfl
 
 /-- `_is_sensitive_host` is the membership test the model's repair loop (`ensureVulnerable`) uses, and a sensitive host is
